@@ -184,6 +184,9 @@ func fromLabels(l labels.Labels, f float64) (Series, error) {
 			s.B = lb.Value
 		case "c":
 			s.C = lb.Value
+			if s.C == "-0" { // count_values of a negative zero; the value domain of the specification has one zero
+				s.C = "0"
+			}
 		default:
 			bad = fmt.Errorf("label %q outside the universe", lb.Name)
 		}
